@@ -1,8 +1,8 @@
 /-
   IQE.Engine.Pruning — executable model of `src/storage/row_group_pruning.rs`:
   `row_group_might_match`, `row_group_definitely_matches`, `check_comparison`, `definite_comparison`, the `check_*_stats`
-  dispatchers and `prune_row_groups`, over the TRANSLATED tables `Gen.Pruning.{BinaryOp, flip_op, eval_range, eval_range_i32,
-  eval_range_f64, eval_range_str, definite_table}`.
+  dispatchers and `prune_row_groups`, over hand copies of the loop-free tables that `IQE.Props.C05` proves equal to the TRANSLATED
+  `Gen.Pruning.{BinaryOp, flip_op, eval_range, eval_range_i32, eval_range_f64, eval_range_str, definite_table}`.
 
   A row group is seen through its per-column statistics (`ColMeta`: typed min / max, null count — or no statistics at all).
   Strings are compared as UTF-8 byte strings (`Rs.Str`), exactly as Rust's `&str` comparison does.
@@ -15,10 +15,49 @@
     Off: the Int32 / Date32 literal is widened instead.
 -/
 import IQE.Core.Val
-import IQE.Gen.Pruning
+import IQE.Core.Rs
 namespace IQE.Engine.Pruning
 open IQE
-open IQE.Gen.Pruning (BinaryOp flip_op eval_range eval_range_i32 eval_range_f64 eval_range_str definite_table)
+
+/-! Hand-written copies of the loop-free tables (the driver must not depend on generated code). `IQE.Props.C05` proves each of
+    them equal to its TRANSLATED counterpart in `IQE.Gen.Pruning` (bridge theorems), so a source edit of a table breaks the
+    proof obligations of C05, not the shared driver. -/
+
+/-- `planner::BinaryOp` -/
+inductive BinaryOp where
+  | Add | Subtract | Multiply | Divide | Modulo | Eq | NotEq | Lt | LtEq | Gt | GtEq | And | Or | Like | NotLike | StringConcat
+deriving DecidableEq, Repr, Inhabited
+
+/-- `flip_op` -/
+def flip_op (op : BinaryOp) : BinaryOp :=
+  match op with
+  | .Lt => .Gt | .LtEq => .GtEq | .Gt => .Lt | .GtEq => .LtEq | other => other
+
+/-- the body shared by `eval_range`, `eval_range_i32`, `eval_range_f64`, `eval_range_str` -/
+def evalRangeG {T : Type} [Rs.Cmp T] (op : BinaryOp) (val min max : T) : Bool :=
+  match op with
+  | .Eq => (Rs.Cmp.le min val) && (Rs.Cmp.le val max)
+  | .NotEq => !((Rs.Cmp.eq min val) && (Rs.Cmp.eq max val))
+  | .Lt => Rs.Cmp.lt min val
+  | .LtEq => Rs.Cmp.le min val
+  | .Gt => Rs.gt max val
+  | .GtEq => Rs.ge max val
+  | _ => true
+def eval_range (op : BinaryOp) (val min max : Int) : Bool := evalRangeG op val min max
+def eval_range_i32 (op : BinaryOp) (val min max : Int) : Bool := evalRangeG op val min max
+def eval_range_f64 (op : BinaryOp) (val min max : F64) : Bool := evalRangeG op val min max
+def eval_range_str (op : BinaryOp) (val min max : Rs.Str) : Bool := evalRangeG op val min max
+
+/-- the final `match effective_op` of `definite_comparison` -/
+def definite_table (effective_op : BinaryOp) (min max val : F64) : Bool :=
+  match effective_op with
+  | .Lt => Rs.Cmp.lt max val
+  | .LtEq => Rs.Cmp.le max val
+  | .Gt => Rs.gt min val
+  | .GtEq => Rs.ge min val
+  | .Eq => (Rs.Cmp.eq min val) && (Rs.Cmp.eq max val)
+  | .NotEq => (Rs.Cmp.lt val min) || (Rs.gt val max)
+  | _ => false
 
 structure Dev where
   definiteViaF64 : Bool := false
@@ -214,7 +253,6 @@ end IQE.Engine.Pruning
 /-! ### reference semantics of the pruned fragment (three-valued; what `evaluate_expr` computes on a decoded row group) -/
 namespace IQE.Engine.Pruning
 open IQE
-open IQE.Gen.Pruning (BinaryOp flip_op)
 
 /-- a cell of a decoded row group: Int32 / Int64 / Date32 are integers, strings are their UTF-8 bytes -/
 inductive Cell
